@@ -15,13 +15,13 @@ PLAN = {
  "C07_m1": [("C06", ["--only", "ed25519"])], "C07_m2": [("C07", ["--only", "ed25519"])],
  "C07_m3": [("C07", ["--only", "ed448"])], "C07_m4": [("C06", ["--only", "ed448"])],
  "C08_m1": [("C08", ["--only", "p256"])], "C08_m2": [("C08", ["--only", "secp256k1"])],
- "C08_m3": [("C11", []), ("C04", ["--tier", "thorough"])], "C08_m4": [("C08", ["--only", "p256"])],
+ "C08_m3": [("C11", ["--only", "theta"])], "C08_m4": [("C08", ["--only", "p256"])],
  "C09_m1": [("C09", ["--only", "jq255e"])], "C09_m2": [("C09", ["--only", "gls254"])],
  "C09_m3": [("C09", ["--only", "jq255s"])], "C09_m4": [("C09", ["--only", "jq255e"])],
  "C02_m1": [("C02", ["--only", "drv_ct_jq255e_ecdh"])], "C02_m2": [("C02", ["--only", "gf25519"])],
  "C02_m3": [("C02", ["--only", "p256"])], "C02_m4": [("C02", ["--only", "ed25519"])],
  "C04_m1": [("C11", ["--only", "zz"])], "C04_m2": [("C11", ["--only", "zz"])],
- "C04_m3": [("C11", ["--only", "secp256k1"]), ("C04", [])], "C04_m4": [("C11", ["--only", "zz"])],
+ "C04_m3": [("C11", ["--only", "theta"])], "C04_m4": [("C11", ["--only", "zz"])],
  "C06_m1": [("C06", ["--only", "ristretto255"])], "C06_m2": [("C06", ["--only", "ed25519"])],
  "C06_m3": [("C06", ["--only", "p256"])], "C06_m4": [("C06", ["--only", "ed448"])],
  "C10_m1": [("C10", [])], "C10_m2": [("C10", [])], "C10_m3": [("C10", [])], "C10_m4": [("C10", [])],
